@@ -48,7 +48,7 @@ def main():
     replay = sys.argv[sys.argv.index("--replay") + 1] if "--replay" in sys.argv else None
     ck = V.Check("C16", tier)
     rng = ck.rng
-    ck.proof_leg(["Extract/Extract_voices.vo", "Extract/Extract_frameinfo.vo"])
+    ck.proof_leg(["Extract/Extract_voices.vo", "Extract/Extract_frameinfo.vo", "Extract/Extract_flow.vo"])
     vdrv = V.build_driver("c16v_drv", ["c16v_drv.c"])
     pdrv = V.build_driver("c16_drv", ["c16_drv.c"])
     vmodel = V.ocaml_build("voices")
@@ -174,6 +174,8 @@ def main():
         nbad = 0
         frames_total = 0
         opst = {}
+        seqsteps = {}
+        smodel = V.ocaml_build("flow")
         for m in mods:
             path = m if os.path.isabs(m) else os.path.join(data, m)
             for rep in range(3 if tier == "quick" else 6):
@@ -214,7 +216,7 @@ def main():
                         elif r < 0.75: script.append(("RS",))
                         elif r < 0.78: script.append(("ST",)); script.append(("P", 2)); script.append(("RS",))
                     script.append(("P", 20))
-                r = V.run([pdrv, path, str(rate), str(fmt), str(numvoc), str(mode), "1"], inp="".join(" ".join(str(x) for x in s) + "\n" for s in script), env=env, timeout=600)
+                r = V.run([pdrv, path, str(rate), str(fmt), str(numvoc), str(mode), "1", "1"], inp="".join(" ".join(str(x) for x in s) + "\n" for s in script), env=env, timeout=600)
                 out = r.stdout.split("\n")
                 if not out or not out[0].startswith("M "):
                     continue
@@ -237,7 +239,15 @@ def main():
                 vinp = []
                 fl = []
                 segs = [[]]
+                sq_stack = []; sq_pairs = []      # hook H7: (which, entry, rin, state before, state after) of every next_order / next_row
                 for l in out[3:]:
+                    if l.startswith("SQ "):
+                        a, b, c_ = l.split("|"); wq = a.split(); 
+                        if wq[2] == "0": sq_stack.append((wq[1], c_.split(), b.split()))
+                        elif sq_stack:
+                            w0, er, pre = sq_stack.pop()
+                            if w0 == wq[1]: sq_pairs.append((w0, er, pre, b.split()))
+                        continue
                     if l.startswith("F "):
                         w = l.split()
                         finp.append(" ".join(w[:15])); fl.append(w)
@@ -248,6 +258,29 @@ def main():
                         opst[l.split()[1]] = opst.get(l.split()[1], 0) + 1
                         if l.split()[1] in ("SP", "SR", "NX", "PV", "SK", "RS", "ST", "MODE"):
                             segs.append([])
+                if sq_pairs and len(out) > 3 and out[3].startswith("MF "):
+                    mh = out[0].split("|"); mf = out[3].split()
+                    sinp = ["M %s %s %s %s |%s|%s" % (mh[0].split()[1], mf[1], mf[2], mf[3], mh[1], mh[2])]
+                    sinp += ["S %s %s %s | %s" % (w0, er[0], er[1], " ".join(pre)) for (w0, er, pre, post) in sq_pairs]
+                    so = V.run([smodel], inp="\n".join(sinp) + "\n").stdout.split("\n")
+                    for k, (w0, er, pre, post) in enumerate(sq_pairs):
+                        res = so[k + 1] if k + 1 < len(so) else "?"
+                        seqsteps[w0] = seqsteps.get(w0, 0) + 1; badq = None
+                        pz = [int(x) for x in pre]
+                        hyp_ok = None
+                        if res.startswith("R "):
+                            flags = res.split("|")[0].split()[1:]; want = res.split("|")[1].split()
+                            hyp_ok = flags[0] == "1" and flags[1] == "1" and pz[7] >= 0 and pz[5] >= -1 and (pz[0] >= -1 if w0 == "0" else flags[2] == "1")
+                            if hyp_ok and flags[3] != "1": raise V.BuildError("Model/Flow.v: the hypotheses of next_%s_pos hold and its own model leaves the position clause: %s" % ("order" if w0 == "0" else "row", res))
+                            if want != post: badq = "next_%s left (ord row pos frame pbreak jump delay jumpline loop_dest loop_param num_rows rowdelay rowdelay_set) = %s, the model %s" % ("order" if w0 == "0" else "row", " ".join(post), " ".join(want))
+                        elif res.startswith("FAIL"):
+                            badq = "the model's order walk does not end from %s (entry %s), the player's did: %s" % (" ".join(pre), er[0], " ".join(post))
+                        if hyp_ok is False: seqsteps["outside_hypotheses"] = seqsteps.get("outside_hypotheses", 0) + 1
+                        if badq:
+                            nbad += 1
+                            ck.violation(dict({"engine": "frames", "module": m, "rate": rate, "format": fmt, "numvoc": numvoc, "mode": mode, "script": script}, what=badq, state_before=" ".join(pre),
+                                              broken="correspondence: Model/Flow.v (next_order / next_row) vs src/player.c through hook H7"), key="seqstep:%s:%s" % (os.path.basename(m), w0))
+                            break
                 fo = V.run([fmodel], inp="\n".join(finp) + "\n").stdout.split("\n")
                 vo = V.run([vmodel], inp="\n".join(vinp) + "\n").stdout.split("\n") if vinp else []
                 frames_total += len(fl)
@@ -278,7 +311,7 @@ def main():
                 if replay:
                     break
         shutil.rmtree(gendir, ignore_errors=True)
-        ck.engine_stat("frames", modules=len(mods), generated_modules=len(genmods), frames=frames_total, control_ops=opst, predicate_failures=nbad)
+        ck.engine_stat("frames", modules=len(mods), generated_modules=len(genmods), frames=frames_total, control_ops=opst, predicate_failures=nbad, sequencer_steps_compared=seqsteps)
         ck.sample({"engine": "frames", "module": mods[0], "first_frame_info": finp[2] if len(finp) > 2 else None})
     ck.cov["rule"] = ("voices: generated op sequences (setpatch with NNA/DCT/DCA, setvol incl. muted roots, resetchannel/resetvoice, queuepatch, pastnote, setnna, reset; channels incl. out-of-range) "
                       "on tables of 7 module/voice-count shapes; frames: corpus modules x random (rate, format, voices, player mode) x scripted histories of play / set_position / set_row / next / prev / seek / restart / stop; "
